@@ -480,7 +480,7 @@ class Walker:
                         self._add_mark(marks_l, m)
                 if s["k"] == "assign":
                     self.assign(env, s["p"], s["rv"])
-                    if not self.keep_ints:
+                    if not self.keep_ints and s["rv"]["k"] != "discr":
                         d = self.norm(env, s["p"])
                         for k2 in [k2 for k2, v2 in env.items() if isinstance(v2, int) and _prefix_match(k2, d)]:
                             del env[k2]
